@@ -13,9 +13,18 @@ import (
 func (fc *FCtx) execBlock(stmts []ast.Stmt, st *State) *Flow {
 	out := newFlow()
 	cur := st
-	for _, s := range stmts {
+	top := len(fc.frames) == 1 && fc.C != nil && len(fc.C.Asserts) > 0 && len(stmts) > 0 && len(fc.FI.Body().List) > 0 && stmts[0] == fc.FI.Body().List[0]
+	for i, s := range stmts {
 		if cur == nil {
 			break // unreachable code
+		}
+		if top {
+			for k, a := range fc.C.Asserts[i] {
+				env := fc.newEnv(cur, fc.entry, s.Pos())
+				t := fc.specBool(a.Expr, env)
+				fc.obligeNamed(cur, fmt.Sprintf("assert#%d.%d", i, k), "assert", t, fmt.Sprintf("assert before statement %d: %s", i, a.Src), s.Pos())
+				cur.assume(t)
+			}
 		}
 		f := fc.execStmt(s, cur, "")
 		out.absorb(f)
